@@ -331,6 +331,73 @@ def upsertAssignments (s : Schema) (selects omits : List Col) (cols : List Col) 
   (fs.filterMap fun cf => if cf.2.autoUpdateTime then some cf.2.dbName else none) ++
   (fs.filterMap fun cf => if cf.2.autoUpdateTime then none else some cf.1)
 
+/-! ## statements WITHOUT a schema — `db.Table("t")` + map value(s), no model: `stmt.Schema == nil`
+
+  Every helper of the write path branches on `stmt.Schema == nil`; the functions below are what is left of each of
+  them on that branch, and `…O` dispatches on `Option Schema` (`some s` = the functions above, unchanged). -/
+
+/-- `processColumn`, first arm: `if stmt.Schema == nil { results[column] = result }` — the name is taken LITERALLY
+    (also `"*"`, `t.col`, quoted names) and `notRestricted` is not touched; `else` the arms modelled by `processColumn` -/
+def processColumnO (o : Option Schema) (st : Results × Bool) (column : Col) (result : Bool) : Results × Bool :=
+  match o with
+  | none => ((column, result) :: st.1, st.2)
+  | some s => processColumn s st column result
+
+/-- `Statement.SelectAndOmitColumns(requireCreate, requireUpdate)` on a statement whose schema may be nil:
+    same two loops, the permission loop only `if stmt.Schema != nil`, the SAME single return
+    `results, !notRestricted && len(stmt.Selects) > 0` -/
+def selectAndOmitO (o : Option Schema) (selects omits : List Col) (requireCreate requireUpdate : Bool) : Results × Bool :=
+  let st1 := selects.foldl (fun st c => processColumnO o st c true) ([], false)
+  let st2 := omits.foldl (fun st c => processColumnO o st c false) st1
+  let r3 := match o with
+    | none => st2.1
+    | some s => s.fields.foldl (permStep requireCreate requireUpdate) st2.1
+  (r3, !st2.2 && !selects.isEmpty)
+
+/-- the keys one `processColumn` call writes, schema known or not -/
+def resolveO (o : Option Schema) (column : Col) : List Col :=
+  match o with
+  | none => [column]
+  | some s => resolve s column
+
+/-- `ConvertToAssignments`, map branch, on a statement whose schema may be nil.  Without schema:
+    `if stmt.Schema != nil { LookUpField … continue }` is skipped, so every key goes through
+    `if v, ok := selectColumns[k]; (ok && v) || (!ok && !restricted) { set = append(set, k) }`,
+    and `if !stmt.SkipHooks && stmt.Schema != nil { auto-update-time }` adds nothing. -/
+def assignmentsOfMapO (o : Option Schema) (selects omits : List Col) (skipHooks : Bool)
+    (keys : List (Col × Bool)) : List Col :=
+  match o with
+  | some s => assignmentsOfMap s selects omits skipHooks keys
+  | none =>
+    let sel := selectAndOmitO none selects omits false true
+    keys.filterMap fun kv => if allowed sel kv.1 then some kv.1 else none
+
+/-- the primary-key conditions `ConvertToAssignments` adds from the model value: the block only runs for
+    `stmt.ReflectValue.Kind()` Struct / Slice, i.e. never for the map value of a schema-less statement -/
+def modelCondsO (o : Option Schema) (modelNz : List Col) : List Col :=
+  match o with
+  | some s => modelConds s modelNz
+  | none => []
+
+/-- `ConvertMapToValuesForCreate`; without schema `if stmt.Schema != nil { k = field.DBName }` is skipped -/
+def createColumnsMapO (o : Option Schema) (selects omits : List Col) (keys : List Col) : List Col :=
+  match o with
+  | some s => createColumnsMap s selects omits keys
+  | none =>
+    let sel := selectAndOmitO none selects omits true false
+    keys.filter fun k => allowed sel k
+
+/-- `ConvertSliceOfMapToValuesForCreate` (the caller de-duplicates and sorts) -/
+def createColumnsMapsO (o : Option Schema) (selects omits : List Col) (rows : List (List Col)) : List Col :=
+  rows.flatMap (createColumnsMapO o selects omits)
+
+/-- `ConvertToCreateValues`, `OnConflict.UpdateAll` block: `if stmt.Schema != nil && len(values.Columns) >= 1 {` —
+    without schema gorm computes no DO UPDATE list and no conflict target -/
+def upsertAssignmentsO (o : Option Schema) (selects omits cols : List Col) : List Col :=
+  match o with
+  | some s => upsertAssignments s selects omits cols
+  | none => []
+
 /-! ## finisher_api.go -/
 
 /-- `Save`, struct branch: `if !selectedUpdate { Selects = append(Selects, "*") }` -/
@@ -381,6 +448,12 @@ def identityConds (s : Schema) (nz : List Col) : List Col :=
     the same block for the model value -/
 def deleteConds (s : Schema) (nz modelNz : List Col) (hasModel : Bool) : List Col :=
   identityConds s nz ++ (if hasModel then identityConds s modelNz else [])
+
+/-- callbacks/delete.go `Delete`: `if db.Statement.Schema != nil { identity conditions }` -/
+def deleteCondsO (o : Option Schema) (nz modelNz : List Col) (hasModel : Bool) : List Col :=
+  match o with
+  | some s => deleteConds s nz modelNz hasModel
+  | none => []
 
 /-- callbacks/create.go `ConvertToCreateValues`, `OnConflict.UpdateAll` block (entered when the INSERT has a column):
     `// use primary fields as default OnConflict columns` — the conflict target is the WHOLE key -/
